@@ -37,6 +37,10 @@ def generate(rng, prop, tier):
     cfg = {"cse": rng.random() < 0.15, "innovation_filtering": rng.choice([None, None, 1.0, 5.0]), "max_dt_sec": fx(rng.choice([0.1, 0.05, 0.5]))}
     mats = {f"m{i}": _matrix(rng, rng.randint(1, 8) if i else rng.randint(3, 8), width, rng.choice([0.5, 1.0, 3.0])) for i in range(rng.randint(2, 4))}
     names = sorted(mats)
+    for nm in names:
+        if rng.random() < 0.35 and len(mats[nm]) >= 2:
+            row = rng.randrange(len(mats[nm]) - 1)  # an outlier row followed by at least one more row
+            mats[nm][row] = [fx(xf(v) * rng.choice([8.0, 15.0, 40.0])) for v in mats[nm][row]]
     # unusual-but-legal containers for the data matrix: integer ndarray, plain list of rows
     mkind = {}
     for nm in names:
@@ -107,9 +111,21 @@ def generate(rng, prop, tier):
 # --------------------------------------------------------------------------- helpers
 def snapshot(est):
     """deep, by-value picture of get_params()"""
-    p = est.get_params()
+    p = dict(est.get_params())
+    none_fields = sorted(k for k in ("symbolic_model", "process_noise", "sensor_models", "sensor_noises", "calibration_map", "config") if p.get(k) is None)
+    missing = sorted(k for k in ("symbolic_model", "process_noise", "sensor_models", "sensor_noises", "calibration_map", "config") if k not in p)
+    for k in ("process_noise", "sensor_models", "sensor_noises"):
+        if p.get(k) is None:
+            p[k] = {}
+    if p.get("config") is None:
+        from formak import python as _py
+
+        p["config"] = _py.Config()
+    p.setdefault("symbolic_model", None)
+    p.setdefault("calibration_map", None)
     sm = p["symbolic_model"]
     return json.dumps({
+        "none_fields": none_fields, "missing_fields": missing,
         "keys": sorted(p),
         "model": None if sm is None else {"state": sorted(str(s) for s in sm.state), "control": sorted(str(s) for s in sm.control), "calibration": sorted(str(s) for s in sm.calibration),
                                           "state_model": {str(k): srepr(v) for k, v in sorted(sm.state_model.items(), key=lambda kv: str(kv[0]))}, "dt": str(sm.dt)},
@@ -118,6 +134,7 @@ def snapshot(est):
         "sensor_noises": {str(k): sorted((str(r), type(r).__name__, float(n).hex()) for r, n in v.items()) for k, v in sorted(p["sensor_noises"].items())},
         "calibration_map": sorted((str(k), type(k).__name__, float(v).hex()) for k, v in (p["calibration_map"] or {}).items()),
         "config": config_dict(p["config"]),
+        "attrs": {k: (None if getattr(est, k, None) is None else (sorted(str(x) for x in getattr(est, k)) if isinstance(getattr(est, k), dict) else type(getattr(est, k)).__name__)) for k in ("process_noise", "sensor_models", "sensor_noises", "calibration_map", "config")},
     }, sort_keys=True)
 
 
@@ -226,6 +243,7 @@ def execute(schedule) -> Result:
     config = python.Config(common_subexpression_elimination=cfg["cse"], innovation_filtering=cfg["innovation_filtering"], max_dt_sec=xf(cfg["max_dt_sec"]))
     est0 = python.SklearnEKFAdapter.Create(b["model"], b["process_noise"], b["sensor_models"], b["sensor_noises"], b["calibration_map"], config=config)
     pool = [est0]
+    pool_snap = {}
     mats = {}
     for k_, m in schedule["matrices"].items():
         kind_ = schedule.get("matrix_kind", {}).get(k_, "float64")
@@ -365,6 +383,15 @@ def execute(schedule) -> Result:
                 elif outcome.startswith("raised"):
                     break
                 res.abstract.append(f"fit|{op['minimize'].split(':')[0]}|{outcome.split(':')[0]}")
+            # no operation on one estimator may change ANOTHER pooled estimator (clones share nothing observable)
+            for j_, other in enumerate(pool):
+                if other is est or (kind == "clone" and j_ == len(pool) - 1):
+                    continue
+                sn_ = snapshot(other)
+                if j_ in pool_snap and pool_snap[j_] != sn_:
+                    res.add("C17", "other_estimator_changed", f"C17:py:other_estimator_changed:{kind}", i, f"{kind} on estimator {ei if kind not in ('clone',) else op['est']} leaves estimator {j_} (a clone / its original) unchanged", _diffkeys(pool_snap[j_], sn_))
+                pool_snap[j_] = sn_
+            pool_snap[pool.index(est)] = snapshot(est)
             res.ops += 1
             res.log.append(f"{i} {kind} snap={hash_s(snapshot(est))}")
     finally:
